@@ -301,6 +301,14 @@ def gen_lattice(r, ctx):
         qs = [[r.randint(-span - 1, span + 1) for _ in range(3)] for _ in range(r.randint(1, 25))]
         rr = r.choice([0, 1, 2, 3, 5, 7, 9, 13, 10 ** 6])
         out.append({"pts": pts, "queries": qs, "r": float(rr), "r2": rr * rr})
+    # exhaustive small scope: every sequence of 1..3 points on the 1-D lattice {-2..2}, every query in {-3..3}, bounds 0..3
+    import itertools
+    line = [-2, -1, 0, 1, 2]
+    qs = [[q, 0, 0] for q in range(-3, 4)]
+    for n in (1, 2, 3):
+        for pts in itertools.product(line, repeat=n):
+            for rr in (0, 1, 2, 3):
+                out.append({"pts": [[p, 0, 0] for p in pts], "queries": qs, "r": float(rr), "r2": rr * rr})
     return out
 
 
